@@ -56,7 +56,7 @@ func init() {
 		},
 		Cases: func(tier string, seed uint64) int {
 			if tier == "thorough" {
-				return 250000
+				return 800000
 			}
 			return 5000
 		},
